@@ -33,7 +33,9 @@ macro_rules! props {
 props! {
     "C01" => c01,
     "C02" => c02,
+    "C03" => c03,
     "C08" => c08,
+    "C10" => c10,
     "C11" => c11,
     "C12" => c12,
     "C13" => c13,
